@@ -67,10 +67,10 @@ type wBatch struct {
 }
 
 type wNode struct {
-	ctx     sdk.Context
-	wd      map[uint64]wdModel
-	batches map[uint64]*wBatch
-	nextPid uint64
+	ctx                        sdk.Context
+	wd                         map[uint64]wdModel
+	batches                    map[uint64]*wBatch
+	nextPid                    uint64
 	paidNotices, refundNotices map[uint64]int // queued or delivered
 	blockSeq                   uint64
 }
@@ -95,13 +95,13 @@ func (n *wNode) clone() *wNode {
 }
 
 type c05Inst struct {
-	r        *mc.Run
-	n        *sim.Node
-	root     *wNode
-	members  []sim.Member
-	userAddr map[uint64]string
-	userScr  map[uint64][]byte
-	relKey   sim.BtcKey
+	r          *mc.Run
+	n          *sim.Node
+	root       *wNode
+	members    []sim.Member
+	userAddr   map[uint64]string
+	userScr    map[uint64][]byte
+	relKey     sim.BtcKey
 	illChecked *sync.Map
 }
 
